@@ -547,10 +547,13 @@ static int cmd_replay(int argc, char **argv) {
 }
 
 static int cmd_one(int argc, char **argv) {   // run a single (prop, seed, run) in-process, verbose: for debugging under gdb/valgrind
-    RunSpec s; s.verbose = true;
+    RunSpec s; s.verbose = true; std::vector<uint64_t> after;
     for (int i = 0; i < argc; ++i) { std::string a = argv[i]; auto nextv = [&]() { return std::string(i + 1 < argc ? argv[++i] : ""); };
-        if (a == "--prop") s.prop = nextv(); else if (a == "--seed") s.seed = strtoull(nextv().c_str(), NULL, 10); else if (a == "--run") s.run = strtoull(nextv().c_str(), NULL, 10); else if (a == "--tier") s.tier = nextv();
+        if (a == "--after") { std::string l = nextv(); size_t p0 = 0; while (p0 < l.size()) { size_t c = l.find(',', p0); if (c == std::string::npos) c = l.size(); after.push_back(strtoull(l.substr(p0, c - p0).c_str(), NULL, 10)); p0 = c + 1; } }
+        else if (a == "--prop") s.prop = nextv(); else if (a == "--seed") s.seed = strtoull(nextv().c_str(), NULL, 10); else if (a == "--run") s.run = strtoull(nextv().c_str(), NULL, 10); else if (a == "--tier") s.tier = nextv();
         else { size_t eq = a.find('='); if (eq != std::string::npos) s.mods.parse_kv(a.substr(0, eq), a.substr(eq + 1)); } }
+    // --after a,b,c: first execute those runs silently in this process (what a worker would have done before)
+    for (uint64_t pre : after) { RunSpec q = s; q.run = pre; q.verbose = false; RunResult r0 = execute_run(q, 0); (void) r0; }
     g_log.side = stdout;
     RunResult r = execute_run(s, 0);
     if (r.violated) printf("VIOLATION clause=%s sig=%s op=%d :: %s\n", r.clause.c_str(), r.sig.c_str(), r.op_index, r.detail.c_str());
